@@ -240,6 +240,10 @@ class Parser:
             if operand is not Operand.LIGHT:
                 return self.token_error(
                     '"{} not allowed with groups or locations.')
+            if self._op_code is not OpCode.COLOR:
+                return self.trigger_error(
+                    'Rows and columns not supported for {}'.format(
+                        self._op_code.name.lower()))
             if not MatrixParser(self).matrix_spec():
                 return False
             operand = Operand.MATRIX_LIGHT
